@@ -1,6 +1,6 @@
     struct Cap<'a>(&'a str);
     impl<'a> Cap<'a> { fn as_str(&self) -> &str { self.0 } }
-    fn slice_offset(hour: i32, minute: i32, timezone_type: i32) -> i32 { /*@SLICE parse_timezone.offset*/ }
+    fn slice_offset(tz: Cap, hour: i32, minute: i32, timezone_type: i32) -> Option<(String, i32)> { /*@SLICE parse_timezone.offset*/ }
     fn slice_sign(timezone_type: Cap) -> i32 { /*@SLICE parse_timezone.sign*/ }
 
     // C11: 'GMT+h[:mm]' / 'GMT-h[:mm]' denote the offset +(60h+m) / -(60h+m) minutes
@@ -12,7 +12,10 @@
         let minus: bool = kani::any();
         let sign = if minus { slice_sign(Cap("-")) } else { slice_sign(Cap("+")) };
         assert!(sign == if minus { -1 } else { 1 }, "OBL:minus_sign_negates_plus_does_not");
-        let off = slice_offset(h, m, sign);
+        let r = slice_offset(Cap("G"), h, m, sign);
+        assert!(r.is_some(), "OBL:gmt_form_yields_a_zone");
+        let off = r.as_ref().unwrap().1;
         kani::cover!(minus && m > 0, "COVER:negative_offset_with_minutes");
         assert!(off == if minus { -(60 * h + m) } else { 60 * h + m }, "OBL:offset_is_signed_hours_and_minutes");
+        core::mem::forget(r);
     }
